@@ -61,6 +61,7 @@ var digestLen = []int{32, 48, 64}
 var hashName = []string{"SHA256", "SHA384", "SHA512"}
 
 type rsaMat struct {
+	bits       int // bit length of the modulus (2048, or a size that is not a multiple of 8: see rsasizes.go)
 	n, p, q, d []byte
 }
 
@@ -150,13 +151,21 @@ type pool struct {
 	rng    *hlib.Rng
 	serial int
 	rsa    []*rsaMat
+	nStd   int             // the first nStd moduli are the 2048-bit ones
 	rsaRaw map[string]*mat // "<rsa index>/<alg>" → raw primitives (construction self-tests are slow)
 }
 
-func newPool(rng *hlib.Rng, nRSA int) *pool {
+// newPool: nRSA 2048-bit moduli made by this file's own generator, then one modulus per entry of
+// extraBits made by crypto/rsa.GenerateKey reading the tape (sizes that are not a multiple of 8 bits,
+// 3072 in the thorough tier).
+func newPool(rng *hlib.Rng, nRSA int, extraBits []int) *pool {
 	p := &pool{rng: rng, rsaRaw: map[string]*mat{}}
 	for i := 0; i < nRSA; i++ {
 		p.rsa = append(p.rsa, genRSA(rng, 2048))
+	}
+	p.nStd = nRSA
+	for _, bits := range extraBits {
+		p.rsa = append(p.rsa, stdlibRSA(bits))
 	}
 	return p
 }
@@ -190,7 +199,7 @@ func genRSA(rng *hlib.Rng, bits int) *rsaMat {
 		if d == nil {
 			continue
 		}
-		return &rsaMat{n: n.Bytes(), p: p.Bytes(), q: q.Bytes(), d: d.Bytes()}
+		return &rsaMat{bits: bits, n: n.Bytes(), p: p.Bytes(), q: q.Bytes(), d: d.Bytes()}
 	}
 }
 
@@ -239,27 +248,11 @@ func (p *pool) newMat(alg string) *mat {
 		m.signer = must(ecdsa.NewSigner(priv, internalapi.Token{}))
 		m.verifier = must(ecdsa.NewVerifier(pub, internalapi.Token{}))
 	case "RS", "PS":
-		ri := p.rng.Intn(len(p.rsa))
-		ck := fmt.Sprintf("%d/%s", ri, alg)
-		if c, ok := p.rsaRaw[ck]; ok {
-			return c // same modulus + same algorithm = the same material (serial kept)
+		ri := p.rng.Intn(p.nStd)
+		if len(p.rsa) > p.nStd && p.rng.Chance(40) {
+			ri = p.nStd + p.rng.Intn(len(p.rsa)-p.nStd) // a modulus of unusual size
 		}
-		m.rsa = p.rsa[ri]
-		if famOf(alg) == "RS" {
-			params := must(rsassapkcs1.NewParameters(2048, pkcs1Hashes[ai], 65537, rsassapkcs1.VariantNoPrefix))
-			pub := must(rsassapkcs1.NewPublicKey(m.rsa.n, 0, params))
-			priv := must(rsassapkcs1.NewPrivateKey(pub, rsassapkcs1.PrivateKeyValues{P: hlib.Secret(m.rsa.p), Q: hlib.Secret(m.rsa.q), D: hlib.Secret(m.rsa.d)}))
-			m.signer = must(rsassapkcs1.NewSigner(priv, internalapi.Token{}))
-			m.verifier = must(rsassapkcs1.NewVerifier(pub, internalapi.Token{}))
-		} else {
-			params := must(rsassapss.NewParameters(rsassapss.ParametersValues{ModulusSizeBits: 2048, SigHashType: pssHashes[ai],
-				MGF1HashType: pssHashes[ai], PublicExponent: 65537, SaltLengthBytes: digestLen[ai]}, rsassapss.VariantNoPrefix))
-			pub := must(rsassapss.NewPublicKey(m.rsa.n, 0, params))
-			priv := must(rsassapss.NewPrivateKey(pub, rsassapss.PrivateKeyValues{P: hlib.Secret(m.rsa.p), Q: hlib.Secret(m.rsa.q), D: hlib.Secret(m.rsa.d)}))
-			m.signer = must(rsassapss.NewSigner(priv, internalapi.Token{}))
-			m.verifier = must(rsassapss.NewVerifier(pub, internalapi.Token{}))
-		}
-		p.rsaRaw[ck] = m
+		return p.rsaMatFor(ri, alg)
 	case "ML":
 		m.mlSeed = p.rng.Bytes(32)
 		params := must(mldsa.NewParameters(mlInstances[ai], mldsa.VariantNoPrefix))
@@ -270,6 +263,38 @@ func (p *pool) newMat(alg string) *mat {
 		m.verifier = must(mldsa.NewVerifier(pub, internalapi.Token{}))
 	}
 	return m
+}
+
+// rsaMatFor: the raw primitives for modulus ri of the pool under alg (RS* / PS*).
+func (p *pool) rsaMatFor(ri int, alg string) *mat {
+	ai := algIndex(alg)
+	ck := fmt.Sprintf("%d/%s", ri, alg)
+	if c, ok := p.rsaRaw[ck]; ok {
+		return c // same modulus + same algorithm = the same material (serial kept)
+	}
+	p.serial++
+	m := &mat{serial: p.serial, alg: alg, rsa: p.rsa[ri]}
+	p.rsaRaw[ck] = m
+	m.buildRSARaw(ai)
+	return m
+}
+
+func (m *mat) buildRSARaw(ai int) {
+	bits := m.rsa.bits
+	if famOf(m.alg) == "RS" {
+		params := must(rsassapkcs1.NewParameters(bits, pkcs1Hashes[ai], 65537, rsassapkcs1.VariantNoPrefix))
+		pub := must(rsassapkcs1.NewPublicKey(m.rsa.n, 0, params))
+		priv := must(rsassapkcs1.NewPrivateKey(pub, rsassapkcs1.PrivateKeyValues{P: hlib.Secret(m.rsa.p), Q: hlib.Secret(m.rsa.q), D: hlib.Secret(m.rsa.d)}))
+		m.signer = must(rsassapkcs1.NewSigner(priv, internalapi.Token{}))
+		m.verifier = must(rsassapkcs1.NewVerifier(pub, internalapi.Token{}))
+	} else {
+		params := must(rsassapss.NewParameters(rsassapss.ParametersValues{ModulusSizeBits: bits, SigHashType: pssHashes[ai],
+			MGF1HashType: pssHashes[ai], PublicExponent: 65537, SaltLengthBytes: digestLen[ai]}, rsassapss.VariantNoPrefix))
+		pub := must(rsassapss.NewPublicKey(m.rsa.n, 0, params))
+		priv := must(rsassapss.NewPrivateKey(pub, rsassapss.PrivateKeyValues{P: hlib.Secret(m.rsa.p), Q: hlib.Secret(m.rsa.q), D: hlib.Secret(m.rsa.d)}))
+		m.signer = must(rsassapss.NewSigner(priv, internalapi.Token{}))
+		m.verifier = must(rsassapss.NewVerifier(pub, internalapi.Token{}))
+	}
 }
 
 // ---------- JWT keys ----------
@@ -314,7 +339,7 @@ func (k *jkey) build() error {
 	case "RS":
 		st := []jwtrsassapkcs1.KIDStrategy{jwtrsassapkcs1.Base64EncodedKeyIDAsKID, jwtrsassapkcs1.CustomKID, jwtrsassapkcs1.IgnoredKID}[k.strat]
 		alg := []jwtrsassapkcs1.Algorithm{jwtrsassapkcs1.RS256, jwtrsassapkcs1.RS384, jwtrsassapkcs1.RS512}[ai]
-		params, err := jwtrsassapkcs1.NewParameters(jwtrsassapkcs1.ParametersOpts{ModulusSizeInBits: 2048, PublicExponent: 65537, Algorithm: alg, KidStrategy: st})
+		params, err := jwtrsassapkcs1.NewParameters(jwtrsassapkcs1.ParametersOpts{ModulusSizeInBits: k.m.rsa.bits, PublicExponent: 65537, Algorithm: alg, KidStrategy: st})
 		if err != nil {
 			return err
 		}
@@ -330,7 +355,7 @@ func (k *jkey) build() error {
 	case "PS":
 		st := []jwtrsassapss.KIDStrategy{jwtrsassapss.Base64EncodedKeyIDAsKID, jwtrsassapss.CustomKID, jwtrsassapss.IgnoredKID}[k.strat]
 		alg := []jwtrsassapss.Algorithm{jwtrsassapss.PS256, jwtrsassapss.PS384, jwtrsassapss.PS512}[ai]
-		params, err := jwtrsassapss.NewParameters(jwtrsassapss.ParametersOpts{ModulusSizeInBits: 2048, PublicExponent: 65537, Algorithm: alg, KidStrategy: st})
+		params, err := jwtrsassapss.NewParameters(jwtrsassapss.ParametersOpts{ModulusSizeInBits: k.m.rsa.bits, PublicExponent: 65537, Algorithm: alg, KidStrategy: st})
 		if err != nil {
 			return err
 		}
